@@ -810,6 +810,7 @@ REGISTRY = {
             'source level: every apply branch of cudd/cudd_zdd/sylvan/buddy x every spelling x 8 Boolean '
             'valuations against dd.bdd.BDD.apply on constants (+ quantifier branches over all 16 functions '
             'of two variables x 3 cubes), vocabulary accepted vs declared, every extracted reference trace '
-            'through an independent re-implementation of the balance rules; distinct = (backend, alias, '
-            'valuation) triples and distinct paths'),
+            'through an independent re-implementation of the balance rules (containers, the counter `_ref` of '
+            'the CUDD handles), definition keywords vs functions found, no function left unfollowed except '
+            'the test helpers; distinct = (backend, alias, valuation) triples and distinct paths'),
 }
